@@ -249,6 +249,9 @@ pub enum Repr {
     Prepended { split: u16, pre: Vec<u8> },
     /// static literal from the compiled-in pool (codes must equal the pool entry)
     Static(u8),
+    /// `Seq::from(BitVec)` (the unstable constructor) of a bit vector whose live bits start
+    /// `head` bits into its first word — only used where alignment must not matter (C02, C18)
+    RawBitVec { head: u8 },
 }
 
 impl Repr {
@@ -272,6 +275,7 @@ impl Repr {
             Repr::Appended { .. } => "appended",
             Repr::Prepended { .. } => "prepended",
             Repr::Static(_) => "static",
+            Repr::RawBitVec { .. } => "raw_bitvec",
         }
     }
     pub fn is_plain(&self) -> bool {
@@ -490,6 +494,19 @@ pub fn build<C: Cm>(sy: &Syms<C>, spec: &SeqSpec) -> R<Built<C>> {
             let p = sy.seq(&cat(&[&pre, &codes[..k]]));
             s.prepend(&p[pre.len()..]);
             Built::Owned(s)
+        }
+        Repr::RawBitVec { head } => {
+            use bitvec::prelude::*;
+            let head = (*head % 64) as usize;
+            let mut bv: BitVec<usize, Lsb0> = BitVec::repeat(true, head);
+            for c in &codes {
+                for b in 0..m.bits {
+                    bv.push((c >> b) & 1 == 1);
+                }
+            }
+            // copying a sub-slice keeps its head offset inside the first word
+            let shifted: BitVec<usize, Lsb0> = bv[head..].to_bitvec();
+            Built::Owned(Seq::<C>::from(shifted))
         }
         Repr::Static(i) => {
             let pool = C::pool();
